@@ -134,9 +134,9 @@ class Transport:
             raise_fault("read")
         if fault is not None and fault[0] == "opbyte":
             resp = bytearray(resp)
-            if len(resp) > 2:
+            if len(resp) > 2 and resp[2] != fault[1]:
                 resp[2] = fault[1]
-            w.device.reset_session()
+                w.device.reset_session()
         w.log.append(("x", idx, apdu, ("ok", bytes(resp)), w.tag))
         return bytearray(resp)
 
